@@ -35,7 +35,7 @@ def main(argv):
                 name = hashlib.sha1(sig.encode()).hexdigest()[:12] + '.json'
                 with open(os.path.join(outdir, name), 'w') as f:
                     json.dump({'signature': sig, 'message': msg, 'case': case}, f)
-        if count[0] % 5000 == 0:
+        if count[0] % 200 == 0:
             with open(os.path.join(outdir, 'executions'), 'w') as f:
                 f.write(str(count[0]))
 
